@@ -62,7 +62,7 @@ def _matrix(rng, n, lo, hi, diag_bias=0.5):
     return A
 
 
-def _lin_block(rng, kind, A, xstar, x0, extra):
+def _lin_block(rng, kind, A, xstar, x0, extra):  # noqa (kind kept for readability of call sites)
     """Text of x = A*LAG_x + b with fixed point xstar (b computed), optional exogenous input,
     decoration and excluded trend variable.  Returns (lines, L, excluded_extra)."""
     n = len(A)
@@ -414,11 +414,6 @@ def check_steady(case, r, rep):
     for var, _ in s2.Parser.Exogenous:
         s2.TimeSeries[var] = [row[var], row[var]]
     s2.TimeSeries['k'] = [0.0, 1.0]
-    for var in list(s2.TimeSeries.keys()):
-        if len(s2.TimeSeries[var]) > 2:
-            s2.TimeSeries[var] = s2.TimeSeries[var][:2]
-        elif len(s2.TimeSeries[var]) == 1:
-            pass
     # non-exogenous series must hold exactly the k=0 point
     exo = set(x[0] for x in s2.Parser.Exogenous)
     for var in s2.TimeSeries:
@@ -524,7 +519,7 @@ def run(ctx):
     out = common.Outcome()
     out.proof = common.proof_status(FAMILY, PROPFILE)
     common.use_impl()
-    n = ctx.scale(450, 9000)
+    n = ctx.scale(1500, 9000)
     items = list(FIXED) + corpus_cases() + [gen_case(ctx.rng) for _ in range(n)]
     cases, metas, seen = [], [], set()
     stats = {'kinds': {}, 'outcomes': {}, 'modes': {}, 'accepted_checked': 0, 'negative_fixed_point': 0,
